@@ -1,7 +1,7 @@
 (* TransparencyFacts: T10c -- the lines of a text do not depend on which of
-   the four encodings carries it, outside the narrow classes D5 (a UTF-16 code
-   unit other than U+000A containing the byte 0x0A), D4 (stream shorter than
-   three bytes) and a text that itself starts with U+FEFF. *)
+   the four encodings carries it, nor on how the bytes are delivered, outside
+   the narrow class D5 (a UTF-16 code unit other than U+000A containing the
+   byte 0x0A) and a text that itself starts with U+FEFF. *)
 From RM Require Import Model.Text Model.Encoding Model.Reader.
 From RM Require Import Proofs.EncodingFacts Proofs.ReaderFacts Gen.Generated.
 Require Import Lia ZArith List ZifyBool.
@@ -352,7 +352,7 @@ Definition one_chunk (b : bytes) : io (list str) := read_all_lines (mk_reader b 
 Lemma one_chunk_stream : forall b, one_chunk b = decode_stream b.
 Proof.
   intros b. unfold one_chunk.
-  apply (read_all_lines_faultless decode_utf8_lossy_spec b [] faultless_nil). reflexivity.
+  apply (read_all_lines_faultless decode_utf8_lossy_spec b [] faultless_nil).
 Qed.
 
 Lemma utf8_enc_length : forall s, (length s <= length (utf8_enc s))%nat.
@@ -385,7 +385,7 @@ Proof.
   intros s S. rewrite one_chunk_stream. unfold decode_stream.
   change (bom_utf8 ++ utf8_enc s) with (239 :: 187 :: 191 :: utf8_enc s).
   change (from_bom (239 :: 187 :: 191 :: utf8_enc s)) with (Utf8, 3%nat).
-  cbn [length]. rewrite min_bom_len_3. cbn [Nat.ltb Nat.leb]. rewrite skipn3.
+  cbn [length]. rewrite skipn3.
   apply lines_pure_utf8; [exact S|]. pose proof (utf8_enc_length s). lia.
 Qed.
 
@@ -395,14 +395,9 @@ Proof.
   intros s S F. rewrite one_chunk_stream. unfold decode_stream.
   change (bom_le ++ utf16le_enc s) with (255 :: 254 :: utf16le_enc s).
   change (from_bom (255 :: 254 :: utf16le_enc s)) with (Utf16LE, 2%nat).
-  rewrite min_bom_len_3. destruct s as [|c t]; [reflexivity|].
-  pose proof (utf16le_enc_nonnil c t) as N.
-  destruct (utf16le_enc (c :: t)) as [|b0 bt] eqn:E; [contradiction|]. rewrite <- E.
-  replace (Nat.ltb (length (255 :: 254 :: utf16le_enc (c :: t))) 3) with false
-    by (symmetry; apply Nat.ltb_ge; rewrite E; cbn [length]; lia).
-  rewrite skipn2. apply lines_pure_utf16le; [split; assumption|].
-  pose proof (utf16_units_length (c :: t)). unfold utf16le_enc. cbn [length].
-  rewrite flat_le_length. cbn [length] in *. unfold str, char, bytes, byte in *. lia.
+  cbv beta iota. rewrite skipn2. apply lines_pure_utf16le; [split; assumption|].
+  pose proof (utf16_units_length s). unfold utf16le_enc. cbn [length].
+  rewrite flat_le_length. unfold str, char, bytes, byte in *. lia.
 Qed.
 
 Theorem utf16be_bom_lines : forall s, scalar_str s -> lf_safe s ->
@@ -411,24 +406,17 @@ Proof.
   intros s S F. rewrite one_chunk_stream. unfold decode_stream.
   change (bom_be ++ utf16be_enc s) with (254 :: 255 :: utf16be_enc s).
   change (from_bom (254 :: 255 :: utf16be_enc s)) with (Utf16BE, 2%nat).
-  rewrite min_bom_len_3. destruct s as [|c t]; [reflexivity|].
-  pose proof (utf16be_enc_nonnil c t) as N.
-  destruct (utf16be_enc (c :: t)) as [|b0 bt] eqn:E; [contradiction|]. rewrite <- E.
-  replace (Nat.ltb (length (254 :: 255 :: utf16be_enc (c :: t))) 3) with false
-    by (symmetry; apply Nat.ltb_ge; rewrite E; cbn [length]; lia).
-  rewrite skipn2. apply lines_pure_utf16be; [split; assumption|].
-  pose proof (utf16_units_length (c :: t)). unfold utf16be_enc. cbn [length].
-  rewrite flat_be_length. cbn [length] in *. unfold str, char, bytes, byte in *. lia.
+  cbv beta iota. rewrite skipn2. apply lines_pure_utf16be; [split; assumption|].
+  pose proof (utf16_units_length s). unfold utf16be_enc. cbn [length].
+  rewrite flat_be_length. unfold str, char, bytes, byte in *. lia.
 Qed.
 
-(* without a BOM: the stream must not be mistaken for one that has a BOM, and
-   must not be shorter than read_bom's minimum chunk (D4) *)
+(* without a BOM: the stream must not be mistaken for one that has a BOM *)
 Theorem utf8_plain_lines : forall s, scalar_str s ->
-  (3 <= length (utf8_enc s))%nat -> from_bom (utf8_enc s) = (Utf8, 0%nat) ->
+  from_bom (utf8_enc s) = (Utf8, 0%nat) ->
   one_chunk (utf8_enc s) = IoDone (lines_of_text s).
 Proof.
-  intros s S L B. rewrite one_chunk_stream. unfold decode_stream. rewrite min_bom_len_3.
-  replace (Nat.ltb (length (utf8_enc s)) 3) with false by (symmetry; apply Nat.ltb_ge; exact L).
+  intros s S B. rewrite one_chunk_stream. unfold decode_stream.
   rewrite B, skipn_O. apply lines_pure_utf8; [exact S|]. pose proof (utf8_enc_length s). lia.
 Qed.
 
@@ -453,29 +441,25 @@ Proof.
 Qed.
 
 (* T10c as one statement: outside the D5 class the four encodings of a text
-   yield the same lines, for every delivery outside the D4 class *)
+   yield the same lines, for EVERY faultless delivery (any chunking -- single
+   bytes, a BOM split over several chunks --, any placement of Interrupted) *)
 Theorem transparency : forall s, scalar_str s -> lf_safe s ->
   forall sch, faultless sch ->
   let L := IoDone (lines_of_text s) in
-  (good_start (length (bom_utf8 ++ utf8_enc s)) sch = true ->
-     read_all_lines (mk_reader (bom_utf8 ++ utf8_enc s) sch) = L) /\
-  (good_start (length (bom_le ++ utf16le_enc s)) sch = true ->
-     read_all_lines (mk_reader (bom_le ++ utf16le_enc s) sch) = L) /\
-  (good_start (length (bom_be ++ utf16be_enc s)) sch = true ->
-     read_all_lines (mk_reader (bom_be ++ utf16be_enc s) sch) = L) /\
-  (good_start (length (utf8_enc s)) sch = true ->
-     (3 <= length (utf8_enc s))%nat -> hd 0 s <> 65279 ->
-     read_all_lines (mk_reader (utf8_enc s) sch) = L).
+  read_all_lines (mk_reader (bom_utf8 ++ utf8_enc s) sch) = L /\
+  read_all_lines (mk_reader (bom_le ++ utf16le_enc s) sch) = L /\
+  read_all_lines (mk_reader (bom_be ++ utf16be_enc s) sch) = L /\
+  (hd 0 s <> 65279 -> read_all_lines (mk_reader (utf8_enc s) sch) = L).
 Proof.
-  intros s S F sch Fs L. unfold L. repeat split; intros G.
-  - rewrite (read_all_lines_faultless decode_utf8_lossy_spec _ _ Fs G), <- one_chunk_stream.
+  intros s S F sch Fs L. unfold L. repeat split.
+  - rewrite (read_all_lines_faultless decode_utf8_lossy_spec _ _ Fs), <- one_chunk_stream.
     apply utf8_bom_lines; exact S.
-  - rewrite (read_all_lines_faultless decode_utf8_lossy_spec _ _ Fs G), <- one_chunk_stream.
+  - rewrite (read_all_lines_faultless decode_utf8_lossy_spec _ _ Fs), <- one_chunk_stream.
     apply utf16le_bom_lines; assumption.
-  - rewrite (read_all_lines_faultless decode_utf8_lossy_spec _ _ Fs G), <- one_chunk_stream.
+  - rewrite (read_all_lines_faultless decode_utf8_lossy_spec _ _ Fs), <- one_chunk_stream.
     apply utf16be_bom_lines; assumption.
-  - intros L3 Hh. rewrite (read_all_lines_faultless decode_utf8_lossy_spec _ _ Fs G), <- one_chunk_stream.
-    apply utf8_plain_lines; [exact S|exact L3|apply from_bom_utf8_enc; assumption].
+  - intros Hh. rewrite (read_all_lines_faultless decode_utf8_lossy_spec _ _ Fs), <- one_chunk_stream.
+    apply utf8_plain_lines; [exact S|apply from_bom_utf8_enc; assumption].
 Qed.
 
 (* ---------- UTF-8 streams with arbitrary bytes: damage stays on its line ---------- *)
@@ -525,16 +509,15 @@ Proof.
   intros b. rewrite one_chunk_stream. unfold decode_stream.
   change (bom_utf8 ++ b) with (239 :: 187 :: 191 :: b).
   change (from_bom (239 :: 187 :: 191 :: b)) with (Utf8, 3%nat).
-  cbn [length]. rewrite min_bom_len_3. cbn [Nat.ltb Nat.leb]. rewrite skipn3.
+  cbn [length]. rewrite skipn3.
   apply lines_pure_utf8_chunks. lia.
 Qed.
 
 Theorem utf8_plain_stream_lines : forall b,
-  (3 <= length b)%nat -> from_bom b = (Utf8, 0%nat) ->
+  from_bom b = (Utf8, 0%nat) ->
   one_chunk b = IoDone (map (fun l => trim_end (lossy_spec l)) (chunks LF b)).
 Proof.
-  intros b L B. rewrite one_chunk_stream. unfold decode_stream. rewrite min_bom_len_3.
-  replace (Nat.ltb (length b) 3) with false by (symmetry; apply Nat.ltb_ge; exact L).
+  intros b B. rewrite one_chunk_stream. unfold decode_stream.
   rewrite B, skipn_O. apply lines_pure_utf8_chunks. lia.
 Qed.
 
@@ -560,11 +543,11 @@ Qed.
 
 Theorem decode_stream_done : forall b, exists ls, decode_stream b = IoDone ls.
 Proof.
-  intros b. unfold decode_stream. destruct (Nat.ltb (length b) min_bom_len); [eexists; reflexivity|].
+  intros b. unfold decode_stream.
   destruct (from_bom b) as [e c]. apply lines_pure_done. rewrite skipn_length. lia.
 Qed.
 
-(* for EVERY faultless delivery (any chunking, also inside the D4 class, any
+(* for EVERY faultless delivery (any chunking, any
    placement of Interrupted), every byte string and every encoding the decode
    yields a list of lines: no Err, no panic, no exhausted fuel *)
 Theorem clean_stream_never_fails : forall b s,
@@ -577,16 +560,13 @@ Proof. intros b s F. apply (read_all_lines_faultless_done decode_utf8_lossy_spec
 Lemma next_raw_le_lf_end : next_raw Utf16LE [LF] = Some ([LF], []).
 Proof. reflexivity. Qed.
 
-(* ---------- BufReader::with_capacity(c, _) for c >= 3 ---------- *)
+(* ---------- BufReader::with_capacity(c, _), every capacity c >= 1 ---------- *)
 
 Lemma faultless_repeat_chunk : forall c n, faultless (repeat (Chunk c) n).
 Proof. intros c n k Hin. apply repeat_spec in Hin. discriminate. Qed.
 
-Theorem bufreader_capacity_ge3 : forall b c n, (3 <= Pos.to_nat c)%nat ->
+Theorem bufreader_any_capacity : forall b c n,
   read_all_lines (mk_reader b (repeat (Chunk c) n)) = decode_stream b.
 Proof.
-  intros b c n H. apply (read_all_lines_faultless decode_utf8_lossy_spec).
-  - apply faultless_repeat_chunk.
-  - destruct n as [|n]; [reflexivity|]. cbn [repeat good_start]. rewrite min_bom_len_3.
-    apply Bool.orb_true_iff. left. apply Nat.leb_le. exact H.
+  intros b c n. apply (read_all_lines_faultless decode_utf8_lossy_spec). apply faultless_repeat_chunk.
 Qed.
